@@ -48,7 +48,7 @@ SEEKOP (op_seek_w80, 0, SEEK_SET | 0x80)
 static int k_inv (void) { return V_INVALID ; }
 SEEKOP (op_seek_neg, -1, SEEK_SET)
 static long op_seek_past (SNDFILE *sf) { sf_count_t r ; INLIB (r = sf_seek (sf, seed_frames + 1, SEEK_SET)) ; return r ; }
-static int  k_seek_past (void) { return MODE == SFM_READ ? V_INVALID : V_NA ; }
+static int  k_seek_past (void) { return MODE == SFM_READ ? V_INVALID : V_VALID ; }	/* write modes: past the end is a legal target (a gap) that a codec may still refuse */
 SEEKOP (op_seek_wmode, 0, SEEK_SET | SFM_WRITE)
 static int k_seek_wmode (void) { return MODE == SFM_READ ? V_INVALID : V_NA ; }
 SEEKOP (op_seek_rmode, 0, SEEK_SET | SFM_READ)
@@ -136,11 +136,20 @@ static uint64_t run_history (const int *h, int depth, int check)
 		if (kl == V_VALID)
 		{	/* a well-formed call may still be refused (e.g. seeking a block codec in write mode): then it must have failed properly */
 			int refused = o->retkind == RK_COUNT ? r == 0 : o->retkind == RK_SEEK ? r == -1 : o->retkind == RK_CODE ? r != 0 : 0 ;
+			if (refused && o->run == op_read1)
+			{	PeekState pk ; pk_get (sf, &pk, 0) ; if (pk.read_current >= pk.frames) refused = 0 ; }	/* a read at or behind the end of the data delivers 0 frames: that is the end, not a refusal */
 			if (! refused)
 			{	if (e != 0) vl_violation (rt_sig ("%s|%s|success-leaves-error", rs, o->name), "%s succeeded (returned %ld) but sf_error is %d (%s)", o->name, r, e, txt) ;
 				}
 			else if (e == 0 && ! (o->retkind == RK_CODE && r != 0))
 				vl_violation (rt_sig ("%s|%s|refused-without-error", rs, o->name), "%s was refused (returned %ld) but sf_error is 0", o->name, r) ;
+			/* a seek that the codec refuses (a target it cannot reach) is an out-of-range seek for this handle: nothing may have moved or been written */
+			if (refused && o->retkind == RK_SEEK)
+			{	if (pk_meta_hash (sf) != before_meta)
+					vl_violation (rt_sig ("%s|%s|refused-seek-changed-state", rs, o->name), "%s was refused (returned %ld) but positions, frame count, settings or metadata changed", o->name, r) ;
+				if (md_hash (&dev) != before_dev)
+					vl_violation (rt_sig ("%s|%s|refused-seek-changed-file", rs, o->name), "%s was refused (returned %ld) but the file contents changed", o->name, r) ;
+				}
 			continue ;
 			}
 		/* invalid call */
